@@ -182,10 +182,98 @@ pub fn plan(ctx: &Ctx) -> Plan {
 
 /// Enumerate the whole frame space. `want_registers`: also make the direct
 /// register calls (C01, C08); frames are always visited.
+/// Call schedules over the frame space (the decoder as a state machine: whatever it remembers between calls - a ring of
+/// recent frames, a memo admitted after n sightings, a list of recent addresses - is filled, wrapped and hit here).
+/// Every call of every schedule is handed to the visitor like any other frame, so each property judges every call.
+/// For every base frame X: (1) every sequence of up to 5 calls over {X, Y} for three partners Y (another kind of
+/// frame, the same frame from another address, a rejected input); (2) X, k distinct other frames, X, X and
+/// (3) X, k distinct other frames, Y, Y, X for k on either side of every power of two up to 256.
+fn schedules(ctx: &Ctx, rep: &Report, v: &dyn Visitor, c: &Counts) {
+    let mut bases = sequence_bases();
+    // westward / southward velocity vectors (angles beyond 180 degrees) and a surface position
+    bases.push(df17(5, 0x4840d6, &me_bds09_gs(1, 0, 0, 0, 1, 120, 1, 7, 0, 0, 10, 0, 5), 0));
+    bases.push(df17(5, 0x4840d6, &me_bds09_gs(1, 0, 0, 0, 1, 3, 0, 250, 0, 1, 10, 0, 5), 0));
+    let rejected: Vec<Vec<u8>> = {
+        let good = df17(5, 0x4840d6, &me_bds08(4, 0, &cs_codes("KLM1023")), 0);
+        let mut bad_crc = good.clone();
+        bad_crc[13] ^= 0x01;
+        let mut too_long = good.clone();
+        too_long.push(0);
+        vec![bad_crc, too_long, good[..6].to_vec(), df4_5(4, 0, 0, 0, 0x0001, 0x4840d6)]
+    };
+    // 300 distinct frames that are accepted (other aircraft, other values)
+    let fillers: Vec<Vec<u8>> = (0..300u32)
+        .map(|i| {
+            let a = 0x100000 + 0x000101 * i;
+            match i % 4 {
+                0 => df17(5, a, &me_bds09_gs(1, 0, 0, 0, (i & 1) as u8, (20 + i) as u16, ((i >> 1) & 1) as u8, (300 - i) as u16, 0, 0, 10, 0, 5), 0),
+                1 => df4_5(4, 0, 0, 0, ac13_q(1000 + 100 * i as i32), a),
+                2 => df11(5, a, 0),
+                _ => df17(5, a, &me_bds05(11, 0, 0, ac12_q(2000 + 25 * i as i32), 0, (i & 1) as u8, 1000 + i, 2000 + 3 * i), 0),
+            }
+        })
+        .collect();
+    let ks: Vec<usize> = if ctx.thorough() { vec![1, 2, 3, 4, 7, 8, 9, 15, 16, 17, 31, 32, 33, 63, 64, 65, 127, 128, 129, 255, 256, 257] } else { vec![1, 2, 3, 7, 8, 9, 15, 16, 17, 31, 32, 33, 64, 65, 128, 129, 256, 257] };
+    let n = bases.len();
+    par_items(ctx.threads, n, |i| {
+        let x = &bases[i];
+        let mut other = bases[(i + 1) % n].clone();
+        // the same frame from another address
+        let mut twin = x.clone();
+        let df = twin[0] >> 3;
+        if df == 17 || df == 18 || df == 11 {
+            twin[2] ^= 0x40;
+            let l = twin.len();
+            twin[l - 3] = 0;
+            twin[l - 2] = 0;
+            twin[l - 1] = 0;
+            seal(&mut twin, 0);
+        } else {
+            let l = twin.len();
+            twin[l - 2] ^= 0x40;
+        }
+        if other == *x {
+            other = twin.clone();
+        }
+        let rej = &rejected[i % rejected.len()];
+        for y in [&other, &twin, rej] {
+            for len in 1..=5usize {
+                for code in 0..(1usize << len) {
+                    for d in 0..len {
+                        visit_frame(v, c, "schedule", if (code >> d) & 1 == 0 { x } else { y });
+                    }
+                }
+            }
+            if stopped() {
+                return;
+            }
+        }
+        for &k in &ks {
+            for y in [None, Some(rej), Some(&other)] {
+                visit_frame(v, c, "schedule", x);
+                for f in fillers.iter().cycle().skip(i * 7).take(k) {
+                    visit_frame(v, c, "schedule", f);
+                }
+                if let Some(y) = y {
+                    visit_frame(v, c, "schedule", y);
+                    visit_frame(v, c, "schedule", y);
+                }
+                visit_frame(v, c, "schedule", x);
+                visit_frame(v, c, "schedule", x);
+            }
+            if stopped() {
+                return;
+            }
+        }
+    });
+    rep.part("call schedules (short sequences over two frames; rings of up to 257 other frames filled between two calls)", c.frames.load(Ordering::Relaxed), serde_json::json!({"base_frames": n, "ring_sizes": ks}));
+}
+
 pub fn sweep(ctx: &Ctx, rep: &Report, v: &dyn Visitor, want_registers: bool) -> Counts {
     let p = plan(ctx);
     let c = Counts::new();
     let addr = 0x4840d6u32;
+    schedules(ctx, rep, v, &c);
     // (b) dispatch: all 2^16 values of bytes 0-1 x {7, 14 bytes} x 3 fills
     par_ranges(ctx.threads, 1 << 16, 256, |lo, hi| {
         for hdr in lo..hi {
